@@ -335,6 +335,24 @@ pub fn generate(sink: &mut Sink, rng: &mut Rng, n: u64, op: &str) {
                 sink.count(&format!("sweep:outcome:{}", r.obs.first().cloned().unwrap_or_default()));
             }
         }
+        // integer-only signatures: the full cross product of the critical integers (overflow pairs such
+        // as (i64::MIN, -1) are too rare in the random stream)
+        let req: Vec<_> = f.parameters().iter().filter(|p| p.required).collect();
+        if (1..=2).contains(&req.len()) && req.iter().all(|p| p.kind & K_INTEGER != 0) {
+            const EDGE: &[&str] = &["(-9223372036854775807 - 1)", "-1", "0", "1", "9223372036854775807"];
+            let combos: Vec<Vec<&str>> = if req.len() == 1 {
+                EDGE.iter().map(|a| vec![*a]).collect()
+            } else {
+                EDGE.iter().flat_map(|a| EDGE.iter().map(move |b| vec![*a, *b])).collect()
+            };
+            for c in combos {
+                let call = Call { fname: name.to_string(), src: format!("{name}!({})", c.join(", ")), event: Value::Object(ObjectMap::new()), shape: "edge-ints".into() };
+                if let Some(src) = compilable(&call) {
+                    sink.count("sweep:edge_int_combos");
+                    sink.emit(op, &[call.fname.clone(), hex(src.as_bytes()), show_value(&call.event)]);
+                }
+            }
+        }
         if emitted > 0 {
             sink.count("sweep:functions_exercised");
         } else {
